@@ -55,6 +55,13 @@ theorem C08_every_state_makes_progress (l : L) (t : Tag) (ht : t.final = false) 
 theorem C08_stream_shape (rs : List Rune) (hok : RunesOK rs) : Str (nLines rs) .top (lexRunes rs).toks :=
   lexRunes_str rs hok
 
+/-- (i) spelled out: the stream ends with its only EOF / ERROR token (the lexer emits nothing after an
+    ERROR and closes the channel after EOF) -/
+theorem C08_one_final_token (rs : List Rune) (hok : RunesOK rs) :
+    ∃ pre last, (lexRunes rs).toks = pre ++ [last] ∧ (last.ty = .eof ∨ last.ty = .error) ∧
+      ∀ t ∈ pre, t.ty ≠ .eof ∧ t.ty ≠ .error :=
+  (lexRunes_str rs hok).ends
+
 /-- (C) every ERROR token the lexer produces was built with an existing `lines[l.line-1]` -/
 theorem C08_lexer_errors_located (rs : List Rune) (hok : RunesOK rs) :
     ∀ t ∈ (lexRunes rs).toks, t.ty = .error → 1 ≤ t.errLine ∧ t.errLine ≤ nLines rs :=
